@@ -163,6 +163,12 @@ func mergeOut(res *runResult, o *WorkerOut) {
 		a.Cells[k] += v
 	}
 	for k, v := range o.Counters {
+		if strings.HasSuffix(k, "_max") {
+			if v > a.Counters[k] {
+				a.Counters[k] = v
+			}
+			continue
+		}
 		a.Counters[k] += v
 	}
 	for k, v := range o.UnspecReasons {
